@@ -579,7 +579,7 @@ func derivesFromPosParam(f *idxFacts, v ssa.Value) bool {
 
 func init() {
 	register(&Rule{ID: "R101", Name: "UPPER-BUFFER", Floor: 6,
-		Text: "in the zero-alloc ToUpper (internal/strings): (a) the buffer chosen at the first changed rune is at least len(s)+utf8.UTFMax long on both branches - the caller's buffer only under a dominating test `len(*bP) >= len(s)+UTFMax`, otherwise a make of exactly that expression; (b) every single-byte store b[n] = byte(r) is dominated by a test n < len(b), or follows n = copy(b, prefix of s) into the buffer of (a); (c) every utf8.EncodeRune(b[n:], r) either follows the sizing of (a) directly or is dominated by the branch on `n+UTFMax >= len(b)`, whose true side replaces b by a make of at least twice its length into which b[:n] is copied first; (d) under the test `r >= 0` (compared with 0 by >=, never >) every path writes the rune exactly once - the byte store or the EncodeRune; a rune is neither dropped nor written twice",
+		Text: "in the zero-alloc ToUpper (internal/strings): (a) the buffer chosen at the first changed rune is at least len(s)+utf8.UTFMax long on both branches - the caller's buffer only under a dominating test `len(*bP) >= len(s)+UTFMax`, otherwise a make of exactly that expression; (b) every single-byte store b[n] = byte(r) is dominated by a test n < len(b), or follows n = copy(b, prefix of s) into the buffer of (a); (c) every utf8.EncodeRune(b[n:], r) either follows the sizing of (a) directly or is dominated by the branch on `n+UTFMax >= len(b)`, whose true side replaces b by a make of at least twice its length into which b[:n] is copied first; (d) from each r := unicode.ToUpper(c) every path to the end of the iteration writes r exactly once - the byte store or the EncodeRune - except paths on the negative side of a test `r < 0` / `r >= 0` (no other constant), which write nothing; a rune is neither dropped nor written twice",
 		Run:  runR101})
 }
 
@@ -840,30 +840,14 @@ func runR101(c *Ctx) {
 	if nb == 0 || ns == 0 {
 		c.undecided(fnm+"|writes", p.pos(fn.Pos()), "expected byte stores and EncodeRune calls")
 	}
-	// (d) under r >= 0 every path writes exactly once
+	// (d) after r := unicode.ToUpper(c): every path to the end of the iteration writes r exactly once, except the
+	// paths that took the `r is negative` side of a test of r against 0, which write nothing
 	eachInstr(fn, func(in ssa.Instruction) {
-		iff, ok := in.(*ssa.If)
-		if !ok {
-			return
-		}
-		cmp, ok := iff.Cond.(*ssa.BinOp)
-		if !ok {
-			return
-		}
-		k, isK := constInt(cmp.Y)
-		isR := false
-		if call, ok := cmp.X.(*ssa.Call); ok && isFuncNamed(calleeObj(call), "unicode", "", "ToUpper") {
-			isR = true
-		}
-		if !isR || !isK || cmp.Op != token.GEQ && cmp.Op != token.GTR {
+		rcall, ok := in.(*ssa.Call)
+		if !ok || !isFuncNamed(calleeObj(rcall), "unicode", "", "ToUpper") {
 			return
 		}
 		key := fnm + "|rune written once"
-		if !(cmp.Op == token.GEQ && k == 0 || cmp.Op == token.GTR && k == -1) {
-			c.bad(key, p.instrPos(iff), fmt.Sprintf("the upper-cased rune is tested with `r %s %d`: U+0000 is a rune like any other and must be written (only negative results are skipped)", cmp.Op, k))
-			return
-		}
-		// paths from the true edge to the first block that post-dominates... : count writes until leaving the region
 		isWrite := func(b *ssa.BasicBlock) int {
 			n := 0
 			for _, w := range writes {
@@ -873,43 +857,111 @@ func runR101(c *Ctx) {
 			}
 			return n
 		}
-		minW, maxW := 99, 0
-		seen := map[*ssa.BasicBlock]bool{}
-		var dfs func(b *ssa.BasicBlock, n int, depth int)
-		dfs = func(b *ssa.BasicBlock, n int, depth int) {
-			n += isWrite(b)
-			// region ends at a loop header, a return, or a block that stores to *bP / breaks out
-			end := len(b.Succs) == 0 || depth > 12
-			for _, li := range loopsOf(fn) {
-				if li.header == b {
-					end = true
-				}
+		headers := map[*ssa.BasicBlock]bool{}
+		for _, li := range loopsOf(fn) {
+			headers[li.header] = true
+		}
+		bad := ""
+		nPaths := 0
+		// sign: 0 unknown, 1 negative (or unchanged in the scan for the first changed rune: nothing to write), 2 non-negative
+		var dfs func(b *ssa.BasicBlock, n int, sign int, depth int, first bool)
+		dfs = func(b *ssa.BasicBlock, n int, sign int, depth int, first bool) {
+			neg := sign == 1
+			if bad != "" || nPaths > 2000 {
+				return
 			}
-			if _, isRet := b.Instrs[len(b.Instrs)-1].(*ssa.Return); isRet {
-				end = true
-			}
-			if !iff.Block().Dominates(b) {
-				end = true
-			}
-			if end || seen[b] && n == 0 {
-				if n < minW {
-					minW = n
-				}
-				if n > maxW {
-					maxW = n
+			if !first && (headers[b] || !rcall.Block().Dominates(b)) || depth > 14 {
+				nPaths++
+				switch {
+				case neg && n != 0:
+					bad = fmt.Sprintf("a negative (or unchanged, not yet buffered) result of unicode.ToUpper is written (%d write(s))", n)
+				case !neg && n != 1:
+					bad = fmt.Sprintf("a path writes the upper-cased rune %d times; it must be written exactly once (a dropped or duplicated rune changes the string)", n)
 				}
 				return
 			}
-			seen[b] = true
-			for _, s := range b.Succs {
-				dfs(s, n, depth+1)
+			n += isWrite(b)
+			last := b.Instrs[len(b.Instrs)-1]
+			if _, isRet := last.(*ssa.Return); isRet || len(b.Succs) == 0 {
+				nPaths++
+				if !neg && n != 1 {
+					bad = fmt.Sprintf("a path writes the upper-cased rune %d times; it must be written exactly once", n)
+				}
+				return
+			}
+			if iff, ok := last.(*ssa.If); ok {
+				cond, val := unNot(iff.Cond, true)
+				if cmp, ok := cond.(*ssa.BinOp); ok {
+					var k int64
+					var isK, rLeft bool
+					if cmp.X == ssa.Value(rcall) {
+						k, isK = constInt(cmp.Y)
+						rLeft = true
+					} else if cmp.Y == ssa.Value(rcall) {
+						k, isK = constInt(cmp.X)
+					}
+					if isK && k <= 1 && k >= -1 {
+						op := cmp.Op
+						if !rLeft {
+							op = map[token.Token]token.Token{token.LSS: token.GTR, token.LEQ: token.GEQ, token.GTR: token.LSS, token.GEQ: token.LEQ}[op]
+						}
+						// which edge means r < 0 ?
+						negOnTrue, understood := false, false
+						switch {
+						case op == token.LSS && k == 0, op == token.LEQ && k == -1:
+							negOnTrue, understood = true, true
+						case op == token.GEQ && k == 0, op == token.GTR && k == -1:
+							negOnTrue, understood = false, true
+						}
+						if !understood && (op == token.LSS || op == token.LEQ || op == token.GTR || op == token.GEQ) {
+							bad = fmt.Sprintf("the upper-cased rune is tested with `r %s %d`: U+0000 is a rune like any other and must be written (only negative results are skipped)", op, k)
+							return
+						}
+						if understood {
+							if !val {
+								negOnTrue = !negOnTrue
+							}
+							for si := 0; si < 2; si++ {
+								edgeNeg := negOnTrue == (si == 0)
+								want := 2
+								if edgeNeg {
+									want = 1
+								}
+								if sign != 0 && sign != want {
+									continue // contradicts what this path already knows about r
+								}
+								dfs(b.Succs[si], n, want, depth+1, false)
+							}
+							return
+						}
+					}
+				}
+			}
+			// r == c: the rune is unchanged (the scan for the first rune that changes writes nothing for it)
+			if iff, ok := last.(*ssa.If); ok {
+				cond, val := unNot(iff.Cond, true)
+				if cmp, ok := cond.(*ssa.BinOp); ok && (cmp.Op == token.EQL || cmp.Op == token.NEQ) && (cmp.X == ssa.Value(rcall) || cmp.Y == ssa.Value(rcall)) {
+					if _, isConst := cmp.Y.(*ssa.Const); !isConst {
+						eqEdge := 0
+						if (cmp.Op == token.EQL) != val {
+							eqEdge = 1
+						}
+						dfs(b.Succs[eqEdge], n, 1, depth+1, false)
+						dfs(b.Succs[1-eqEdge], n, sign, depth+1, false)
+						return
+					}
+				}
+			}
+			for _, sc := range b.Succs {
+				dfs(sc, n, sign, depth+1, false)
 			}
 		}
-		dfs(iff.Block().Succs[0], 0, 0)
-		if minW == 1 && maxW == 1 {
-			c.ok(key, p.instrPos(iff), "every path under r >= 0 writes the rune exactly once")
+		// start after the call: the rest of its block belongs to the region
+		dfs(rcall.Block(), 0, 0, 0, true)
+		if bad == "" {
+			c.ok(key, p.instrPos(rcall), fmt.Sprintf("%d paths: the rune is written exactly once unless it is negative", nPaths))
 		} else {
-			c.bad(key, p.instrPos(iff), fmt.Sprintf("under r >= 0 a path writes the rune %d..%d times; it must be written exactly once (a dropped first rune or a duplicated one changes the upper-cased string)", minW, maxW))
+			c.bad(key, p.instrPos(rcall), bad)
 		}
 	})
 }
